@@ -10,6 +10,8 @@ import (
 	"testing/synctest"
 	"time"
 
+	"github.com/cuteLittleDevil/go-jt808/protocol/model"
+
 	"verifsim/simfs"
 	"verifsim/simnet"
 	"verifsim/simrt"
@@ -60,6 +62,12 @@ func Exec(t *testing.T, p *Plan, replay bool) (res *Result) {
 	savedOut := os.Stdout
 	os.Stdout = devNull
 	defer func() { os.Stdout = savedOut }()
+	// outside a bubble everything runs in pass-through mode (generators and oracles call the terminal
+	// simulator, whose handlers carry the ReplyBody yield hooks)
+	defer func() {
+		simrt.Enabled = false
+		model.SimYield = nil
+	}()
 	defer func() {
 		// synctest.Test panics when the root returns while goroutines that can never exit (accept loops,
 		// the session manager) remain blocked: expected, the run is already complete.
@@ -83,6 +91,7 @@ func Exec(t *testing.T, p *Plan, replay bool) (res *Result) {
 		}
 		simfs.Reset(cwd)
 		simfs.StepFn = simrt.Step
+		simfs.WhoFn = simrt.CurName
 		for _, f := range p.Files {
 			if f.Dir {
 				simfs.AddDir(f.Path)
@@ -90,6 +99,7 @@ func Exec(t *testing.T, p *Plan, replay bool) (res *Result) {
 				simfs.AddFile(f.Path, f.Data)
 			}
 		}
+		model.SimYield = simrt.Yield
 		simnet.OnServerWrite = w.onServerWrite
 		simnet.OnServerClose = w.onServerClose
 		simnet.OnServerRead = w.onServerRead
